@@ -9,6 +9,13 @@ from .dataflow import walk_scope
 from .model import Cls, Func, Repo, dotted
 from .terms import Expander, Term, alts, subterms
 
+# external functions that invoke the callables they are given (DESIGN.md section 4)
+HIGHER_ORDER_EXTERNALS = {
+    "scipy.optimize.minimize",
+    "scipy.optimize.differential_evolution",
+    "atexit.register",
+}
+
 # type representation: ('cls', qualname) | ('seq', T) | ('map', T) | ('ext', name)
 Type = tuple
 
@@ -26,6 +33,8 @@ class CallGraph:
         self.n_external = 0
         self.n_resolved = 0
         self._plugin_types = self._read_plugin_types()
+        self._cb: dict | None = None
+        self._all_callees: dict[str, list] = {}
 
     # ------------------------------------------------------------ annotation
     def ann_types(self, ann: ast.AST | None, func_or_mod) -> frozenset[Type]:
@@ -400,27 +409,38 @@ class CallGraph:
                     if isinstance(n, ast.Call):
                         sites.append((n, []))
             self._sites[f.qualname] = sites
-        # two passes: callable-parameter resolution needs the callers index
-        for _ in range(2):
-            self._callers = {}
-            self.unresolved = []
-            self.n_calls = self.n_external = self.n_resolved = 0
+        # several passes: callable-parameter resolution needs the callers index
+        # of the previous pass (built aside and swapped in when complete)
+        prev_count = -1
+        for _ in range(4):
+            callers: dict[str, list[tuple[Func, ast.Call]]] = {}
+            unresolved = []
+            n_calls = n_external = n_resolved = 0
+            new_all = {}
             for f in self.repo.all_funcs():
                 new_sites = []
                 for call, _old in self._sites[f.qualname]:
                     fn = self.X.at(f, call.func)
                     callees = self.resolve_fn(fn, f)
                     new_sites.append((call, callees))
-                    self.n_calls += 1
+                    n_calls += 1
                     if callees:
-                        self.n_resolved += 1
+                        n_resolved += 1
                         for g in callees:
-                            self._callers.setdefault(g.qualname, []).append((f, call))
+                            callers.setdefault(g.qualname, []).append((f, call))
                     elif _is_external(fn):
-                        self.n_external += 1
+                        n_external += 1
                     else:
-                        self.unresolved.append((f, call))
-                self._sites[f.qualname] = new_sites
+                        unresolved.append((f, call))
+                new_all[f.qualname] = new_sites
+            self._sites = new_all
+            self._callers = callers
+            self.unresolved = unresolved
+            self.n_calls, self.n_external, self.n_resolved = n_calls, n_external, n_resolved
+            edge_count = sum(len(cs) for ss in new_all.values() for _, cs in ss)
+            if edge_count == prev_count:
+                break
+            prev_count = edge_count
 
     def sites(self, f: Func) -> list[tuple[ast.Call, list[Func]]]:
         if self._sites is None:
@@ -462,6 +482,146 @@ class CallGraph:
                     if g.qualname not in seen:
                         work.append(g)
         return [seen[q] for q in sorted(seen)]
+
+    def function_values_deep(self, t: Term, func: Func, depth: int = 0, _seen: set | None = None) -> list[Func]:
+        """Package functions that may be *called through* the value ``t``:
+        function values inside it, inside the self-fields it reads and inside
+        the return values of package calls it contains (callback flow)."""
+        if _seen is None:
+            _seen = set()
+        out: list[Func] = []
+        if depth > 5:
+            return out
+
+        def add(fs):
+            for f in fs:
+                if f not in out:
+                    out.append(f)
+
+        def visit(x: Term, callee_pos: bool) -> None:
+            k = x[0]
+            if k == "rec":
+                key = ("rec",) + tuple(x[3:5])
+                if len(x) >= 5 and key not in _seen:
+                    _seen.add(key)
+                    visit(self.X.deref(x), callee_pos)
+                return
+            if k == "func" and not callee_pos:
+                add(self.resolve_fn(x, func))
+                return
+            if k == "global":
+                if not callee_pos and x[1] in self.repo.funcs:
+                    add([self.repo.funcs[x[1]]])
+                return
+            if k == "attr":
+                if not callee_pos:
+                    ms = [m for m in self.resolve_fn(x, func) if not m.is_property]
+                    add(ms)
+                    if not ms:
+                        for bt in self.term_types(x[1], func):
+                            if bt[0] == "cls" and bt[1] in self.repo.classes:
+                                key = ("field", bt[1], x[2])
+                                if key in _seen:
+                                    continue
+                                _seen.add(key)
+                                c = self.repo.classes[bt[1]]
+                                for m, v in self.field_stores(c, x[2]):
+                                    add(self.function_values_deep(v, m, depth + 1, _seen))
+                visit(x[1], False)
+                return
+            if k == "call":
+                fn = x[1]
+                if fn == ("global", "functools.partial"):
+                    for a in x[2]:
+                        visit(a, False)
+                    return
+                visit(fn, True)
+                for a in x[2]:
+                    visit(a, False)
+                for _, v in x[3]:
+                    visit(v, False)
+                for g in self.resolve_fn(fn, func):
+                    key = ("ret", g.qualname)
+                    if key in _seen or g.name in ("__init__", "__post_init__"):
+                        continue
+                    _seen.add(key)
+                    add(self.function_values_deep(self.X.return_term(g), g, depth + 1, _seen))
+                return
+            for y in x[1:]:
+                if isinstance(y, tuple):
+                    if y and isinstance(y[0], str):
+                        visit(y, False)
+                    else:
+                        for z in y:
+                            if isinstance(z, tuple) and z and isinstance(z[0], str):
+                                visit(z, False)
+                            elif isinstance(z, tuple):
+                                for w in z:
+                                    if isinstance(w, tuple) and w and isinstance(w[0], str):
+                                        visit(w, False)
+
+        visit(t, False)
+        return out
+
+    def field_stores(self, c: Cls, name: str) -> list[tuple[Func, Term]]:
+        """(method, value term) for every ``self.<name> = value`` store."""
+        out: list[tuple[Func, Term]] = []
+        for k in self.repo.mro(c):
+            for m in k.methods.values():
+                if not m.positional:
+                    continue
+                selfname = m.positional[0]
+                for n in walk_scope(m.node):
+                    pairs = []
+                    if isinstance(n, ast.AnnAssign) and n.value is not None:
+                        pairs = [(n.target, n.value)]
+                    elif isinstance(n, ast.Assign):
+                        pairs = [(t, n.value) for t in n.targets]
+                    for tgt, val in pairs:
+                        if (
+                            isinstance(tgt, ast.Attribute)
+                            and tgt.attr == name
+                            and isinstance(tgt.value, ast.Name)
+                            and tgt.value.id == selfname
+                        ):
+                            out.append((m, self.X.at(m, val)))
+        return out
+
+    def callbacks_of_call(self, f: Func, call: ast.Call) -> list[Func]:
+        """Callback edges: package functions passed (directly, through fields
+        or through returned containers) as arguments of an external call."""
+        if self._cb is None:
+            self._cb = {}
+        key = id(call)
+        if key not in self._cb:
+            t = self.X.at(f, call)
+            out: list[Func] = []
+            for a in list(t[2]) + [v for _, v in t[3]]:
+                for g in self.function_values_deep(a, f):
+                    if g not in out:
+                        out.append(g)
+            self._cb[key] = out
+        return self._cb[key]
+
+    def all_callees(self, f: Func) -> list[tuple[ast.Call, list[Func], str]]:
+        """(call, callees, kind) with kind 'direct' or 'callback'.  Callback
+        edges exist only for the external higher-order functions of
+        HIGHER_ORDER_EXTERNALS (trusted table: they may call what they get)."""
+        key = f.qualname
+        if key in self._all_callees:
+            return self._all_callees[key]
+        out = []
+        for call, cs in self.sites(f):
+            if cs:
+                out.append((call, cs, "direct"))
+            else:
+                fn = self.X.at(f, call.func)
+                if fn[0] == "global" and fn[1] in HIGHER_ORDER_EXTERNALS:
+                    cbs = self.callbacks_of_call(f, call)
+                    if cbs:
+                        out.append((call, cbs, "callback"))
+        self._all_callees[key] = out
+        return out
 
     def function_values_in(self, t: Term, func: Func) -> list[Func]:
         """Package functions denoted by function-valued subterms of ``t``
